@@ -14,6 +14,7 @@ import Driver.Dict
 import Driver.Id3Spec
 import Driver.TagCodec
 import Driver.Mp4
+import Driver.TagCodec2
 open Driver
 
 def dispatch (line : String) : String :=
@@ -36,6 +37,7 @@ def dispatch (line : String) : String :=
     | "id3spec" => id3specOp a
     | "tagc" => tagcOp a
     | "mp4" => mp4Op a
+    | "tagc2" => tagc2Op a
     | "flacinfo" => flacInfoOp a
     | "ping" => "pong"
     | _ => "bad-op"
